@@ -10,10 +10,11 @@ from vlib import VERIF
 
 PARSER_FNS = ['next_lexem', 'drop_lexem', 'there_are_remaining_lexems', 'parse_where', 'parse_expr', 'parse_and',
               'parse_cond', 'parse_add_sub', 'parse_mul_div', 'parse_paren', 'parse_func_scalar', 'parse_function',
-              'parse_group_by', 'parse_order_by', 'parse_limit', 'parse_output_format', 'negate_expr_op']
+              'parse_group_by', 'parse_order_by', 'parse_limit', 'parse_output_format', 'negate_expr_op',
+              'parse_root_options', 'parse_fields', 'is_root_option_keyword']
 
 
-NOT_EXTRACTED = ['new', 'parse', 'parse_fields', 'parse_roots', 'parse_root_options', 'is_root_option_keyword']
+NOT_EXTRACTED = ['new', 'parse', 'parse_roots']
 
 
 def build(scratch, specs, extra_text=''):
@@ -33,6 +34,10 @@ def build(scratch, specs, extra_text=''):
     out.append(extract_type(query, 'enum', 'OutputFormat'))
     out.append(extract_type(expr, 'struct', 'Expr', keep={'PartialEq', 'Eq'}))
     out.append(extract_type(parser, 'struct', 'Parser'))
+    out.append(extract_type(query, 'enum', 'TraversalMode'))
+    out.append('use TraversalMode::{Bfs, Dfs};')
+    out.append(extract_type(query, 'struct', 'RootOptions'))
+    out.append('#[verifier::external_body]\nfn error_message(source: &str, description: &str) { }')
     # ---- Op / ArithmeticOp / OutputFormat / Field / Function helper impls ----
     out.append('impl Op {')
     for f in ['from', 'from_with_not', 'negate']:
@@ -85,6 +90,9 @@ def build(scratch, specs, extra_text=''):
         t, h = splice_fn(parser, name, 'Parser', dict(attrs=['#[verifier::exec_allows_no_decreases_clause]']))
         out.append(t); shas['Parser::' + name + ' (uncontracted helper)'] = h
     out.append('}')
+    import verus_engine
+    out.append('\n'.join(verus_engine.HOISTED))
+    verus_engine.HOISTED.clear()
     out.append(extra_text)
     out.append('} // verus!\nfn main() {}\n')
     return '\n'.join(out), shas
